@@ -10,6 +10,8 @@ import sys
 
 ROOT = os.path.dirname(os.path.dirname(os.path.abspath(__file__)))
 RES = sys.argv[1] if len(sys.argv) > 1 else "/tmp/seed_results"
+WT_PREFIX = sys.argv[2] if len(sys.argv) > 2 else "/tmp/wt_"
+ID_PREFIX = sys.argv[3] if len(sys.argv) > 3 else ""
 
 
 def needs(notes, ab):
@@ -29,18 +31,18 @@ def main():
             continue
         c = j.get("confirmation", {})
         ok = c.get("applies") and c.get("suite_with_change", {}).get("green") and c.get("demo_fails_with_change") and c.get("demo_passes_without_change")
-        wt = f"/tmp/wt_{pid}"
+        wt = f"{WT_PREFIX}{pid}"
         if not ok:
             rows.append((name, "NOT CONFIRMED", c))
             continue
-        d = os.path.join(ROOT, "seeded", f"{pid}-{ab}")
+        d = os.path.join(ROOT, "seeded", f"{ID_PREFIX}{pid}-{ab}")
         os.makedirs(d, exist_ok=True)
         shutil.copyfile(os.path.join(wt, f"mutant_{ab}.patch"), os.path.join(d, "patch.diff"))
         shutil.copyfile(os.path.join(wt, "tests", f"demo_{ab}.rs"), os.path.join(d, f"demo_{ab}.rs"))
         notes = open(os.path.join(wt, "notes.md"), errors="replace").read() if os.path.exists(os.path.join(wt, "notes.md")) else ""
         caught = {k: v for k, v in j.get("checks", {}).items()}
         meta = {
-            "id": f"{pid}-{ab}",
+            "id": f"{ID_PREFIX}{pid}-{ab}",
             "breaks_property": pid,
             "source": "independent sub-agent given only the property text and a scratch worktree of /repo",
             "needs_in_order_to_manifest": needs(notes, ab.upper()),
